@@ -222,6 +222,15 @@ fn kin(v: &Value, pick: usize) -> Option<Value> {
 /// Change exactly one leaf somewhere inside `v` (descending into arrays and objects at random).
 fn change_one_deep_leaf(v: &mut Value, rng: &mut Rng) {
     match v {
+        Value::Array(a) if !a.is_empty() && rng.chance(1, 4) => {
+            // the array itself: one item more (a copy of the last, or null), one item fewer, two neighbours exchanged
+            match rng.below(4) {
+                0 => { let x = a[a.len() - 1].clone(); a.push(x); }
+                1 => a.push(Value::Null),
+                2 => { a.pop(); }
+                _ => { let i = rng.usize_below(a.len()); if i + 1 < a.len() && !same_value(&a[i], &a[i + 1]) { a.swap(i, i + 1); } else { a.insert(0, Value::Null); } }
+            }
+        }
         Value::Array(a) if !a.is_empty() => { let i = rng.usize_below(a.len()); change_one_deep_leaf(&mut a[i], rng) }
         Value::Object(o) if !o.is_empty() => {
             let i = rng.usize_below(o.len());
